@@ -77,6 +77,11 @@ def cases(tier):
     # subtrahend wider than the minuend (saturating subtraction uses the borrow of the wider width)
     add('sub', [(1, 2, 2), (1, 2, 4)])
     add('sub', [(2, 1, 1), (2, 1, 3)])
+    # one Matrix object in both operand positions
+    for op in ('add', 'sub', 'mul', 'hstack', 'vstack', 'dot'):
+        add(op, [(2, 2, 2)], self2=True)
+        add(op, [(1, 3, 2)], self2=True) if op != 'dot' else add(op, [(1, 1, 3)], self2=True)
+    add('matmul', [(2, 2, 2)], self2=True)
     # a Const object as the scalar factor: powers of two and other values, minimal and padded bitwidths
     for k in (1, 2, 3, 4, 8, 12):
         add('mul_const', [(2, 2, 4)], k=k)
